@@ -164,7 +164,14 @@ func (d *Decimal) setString(c *Context, s string) (Condition, error) {
 	}
 	// No parse errors, can now flag as finite.
 	d.Form = Finite
-	return c.goError(d.setExponent(c, unknownNumDigits, 0, exps...))
+	// The limits apply to the exponent of the value, not to the exponent
+	// written in the string: ".1e100001" is 1E+100000. Neither term can
+	// overflow an int64 (one comes from a 32-bit parse, the other from len(s)).
+	var exp int64
+	for _, e := range exps {
+		exp += e
+	}
+	return c.goError(d.setExponent(c, unknownNumDigits, 0, exp))
 }
 
 // NewFromString creates a new decimal from s. It has no restrictions on
